@@ -9,7 +9,8 @@ from . import g01util as u
 GROUP = "g01"
 PROP_FILE = "C01.v"
 OWN_FILES = ("Tables.v", "Via.v", "ViaCheck.v", "ViaProofs.v", "Ob18.v", "ReqPipeline.v", "ReqCheck.v", "ReqE2E.v",
-             "ReqProofs.v", "RouteProofs.v", "Ob01.v", "C01.v")
+             "ReqProofs.v", "RouteProofs.v", "TransportTac.v", "TransportProofs.v", "TransportProofs2.v", "E2EProofs.v",
+             "Ob01.v", "C01.v")
 
 
 def parse_diag(text):
